@@ -80,6 +80,32 @@ type c19Case struct {
 	// fault: the k-th tokenizer call of the prompt construction fails (0 = never). A prompt built in spite of it must
 	// still be the right one; otherwise the failure has to surface as an error (TestC19ChatPrompt only)
 	TokFail int `json:"tok_fail,omitempty"`
+	// number of tool definitions the request carries (template "rangetools" renders them; each costs six tokens)
+	Tools int `json:"tools,omitempty"`
+}
+
+func c19Tools(n int) api.Tools {
+	var ts api.Tools
+	for i := 0; i < n; i++ {
+		var t api.Tool
+		t.Type = "function"
+		t.Function.Name = fmt.Sprintf("tool%d", i)
+		t.Function.Description = "does a thing or two"
+		ts = append(ts, t)
+	}
+	return ts
+}
+
+// c19ToolsBlock is what template "rangetools" prints for n tools.
+func c19ToolsBlock(n int) string {
+	if n == 0 {
+		return ""
+	}
+	s := "<<tools>> "
+	for i := 0; i < n; i++ {
+		s += fmt.Sprintf("tool%d does a thing or two ", i)
+	}
+	return s + "<<endtools>> "
 }
 
 const c19KnownSysBeforeLast = "sys-before-last-dropped"
@@ -99,6 +125,11 @@ type c19Tmpl struct {
 var c19Tmpls = map[string]c19Tmpl{
 	"range": {
 		src:  `{{ range .Messages }}<<{{ .Role }}>> {{ .Content }} <<end>> {{ end }}<<assistant>>`,
+		kind: "generic", open: "<<", mid: ">> ", close: " <<end>> ", trailer: "<<assistant>>",
+	},
+	// "range" with a block that lists the request's tool definitions ahead of the messages: the block takes context too
+	"rangetools": {
+		src:  `{{ if .Tools }}<<tools>> {{ range .Tools }}{{ .Function.Name }} {{ .Function.Description }} {{ end }}<<endtools>> {{ end }}{{ range .Messages }}<<{{ .Role }}>> {{ .Content }} <<end>> {{ end }}<<assistant>>`,
 		kind: "generic", open: "<<", mid: ">> ", close: " <<end>> ", trailer: "<<assistant>>",
 	},
 	"syshdr": {
@@ -242,7 +273,7 @@ var c19Words = []string{"a", "b", "cc", "dd", "eee", "fgh", "i", "jk", "lmn", "o
 
 func c19Gen(t *rapid.T) c19Case {
 	var c c19Case
-	c.Tmpl = rapid.SampledFrom([]string{"range", "range", "range", "syshdr", "syshdr", "legacy", "legacy", "legacy", "chatml", "llama3"}).Draw(t, "tmpl")
+	c.Tmpl = rapid.SampledFrom([]string{"range", "range", "rangetools", "rangetools", "syshdr", "syshdr", "legacy", "legacy", "legacy", "chatml", "llama3"}).Draw(t, "tmpl")
 	c.Model = rapid.SampledFrom([]string{"plain", "plain", "plain", "plain", "plain", "plain", "plain", "plain", "plain",
 		"clip", "clip", "clip", "clip", "clip", "clip", "clip", "clip",
 		"mllama-noproj", "mllama-noproj", "mllama"}).Draw(t, "model")
@@ -252,6 +283,17 @@ func c19Gen(t *rapid.T) c19Case {
 	}
 	c.Msgs = rapid.SliceOfN(rapid.Custom(func(t *rapid.T) c19Msg { return c19GenMsg(t, roles) }), 1, 12).Draw(t, "msgs")
 	c.CtxAbs, c.CtxIdx, c.CtxDelta = c19GenCtx(t, len(c.Msgs))
+	if c.Tmpl == "rangetools" {
+		c.Tools = rapid.IntRange(0, 3).Draw(t, "tools")
+	}
+	// one conversation in five attaches the same picture(s) again in later turns: equal bytes are still separate images
+	if rapid.IntRange(0, 4).Draw(t, "same_images") == 0 {
+		for i := range c.Msgs {
+			if c.Msgs[i].Images > 0 {
+				c.Msgs[i].ImgKey = 1
+			}
+		}
+	}
 	if rapid.IntRange(0, 7).Draw(t, "has_tok_fail") == 0 {
 		c.TokFail = rapid.IntRange(1, 6).Draw(t, "tok_fail")
 	}
@@ -721,7 +763,7 @@ func c19Prepare(c c19Case) (ref *c19Ref, info c19Info, err error) {
 		}
 		list = append(list, orig[i:]...)
 		var b bytes.Buffer
-		if err := tm.Execute(&b, template.Values{Messages: list}); err != nil {
+		if err := tm.Execute(&b, template.Values{Messages: list, Tools: c19Tools(c.Tools)}); err != nil {
 			return nil, info, fmt.Errorf("template %s failed on messages %d..: %v", c.Tmpl, i, err)
 		}
 		count[i] = len(strings.Fields(b.String()))
@@ -867,6 +909,14 @@ func c19Judge(ref *c19Ref, o c19Opts, info c19Info, producer, prompt string, ima
 		}
 		return info, fmt.Errorf("%s failed: %v; %s", producer, cerr, head)
 	}
+	if blk := c19ToolsBlock(c.Tools); blk != "" && c.Tmpl == "rangetools" {
+		// the tool block is not a message: it is taken off before the prompt is read back (its cost is in the counts)
+		info.classes = append(info.classes, "request_with_tools")
+		if !strings.HasPrefix(prompt, blk) {
+			return info, fmt.Errorf("the prompt does not begin with the template's block for the request's %d tools; %s", c.Tools, head)
+		}
+		prompt = prompt[len(blk):]
+	}
 	res := c19Result{prompt: prompt, images: images}
 	var perr error
 	switch tk.kind {
@@ -932,7 +982,7 @@ func c19Run(c c19Case, o c19Opts) (info c19Info, err error) {
 		}
 		return c19Tokenize(ctx, s)
 	}
-	prompt, images, cerr := chatPrompt(context.Background(), ref.m, tok, &api.Options{Runner: api.Runner{NumCtx: ref.ctx}}, in, nil)
+	prompt, images, cerr := chatPrompt(context.Background(), ref.m, tok, &api.Options{Runner: api.Runner{NumCtx: ref.ctx}}, in, c19Tools(c.Tools))
 	if hit {
 		info.classes = append(info.classes, "tokenizer_fault_hit")
 		if cerr != nil {
